@@ -265,8 +265,10 @@ def design_mc(invs):
         if tier == 'quick':
             return [dict(name='handover-b111', instance='handover', budgets=(1, 1, 1), invariants=['TypeOK'] + invs),
                     dict(name='single3-b111', instance='single3', budgets=(1, 1, 1), invariants=['TypeOK'] + invs)]
-        return [dict(name='handover-b211', instance='handover', budgets=(2, 1, 1), invariants=['TypeOK'] + invs, timeout=3000),
-                dict(name='single3-b321', instance='single3', budgets=(3, 2, 1), invariants=['TypeOK'] + invs, timeout=3000)]
+        # (with third-party creates enabled - observation O10 - the former budgets 2/1/1 and 3/2/1 mean 38 M and 101 M states,
+        #  10 and 23 min per check; 2/1/0 = 7.1 M states, 2/2/1 = 4.4 M states)
+        return [dict(name='handover-b210', instance='handover', budgets=(2, 1, 0), invariants=['TypeOK'] + invs, timeout=3000),
+                dict(name='single3-b221', instance='single3', budgets=(2, 2, 1), invariants=['TypeOK'] + invs, timeout=3000)]
     return f
 
 
@@ -420,10 +422,10 @@ def live_mc(tier):
                 dict(name='live-handoverfixed-b111', instance='handoverfixed', budgets=(1, 1, 1), invariants=['TypeOK'], spec='FixedSpec', props=LIVE, constraint=False),
                 dict(trig, name='live-trig-single3-b211', instance='single3', budgets=(2, 1, 1)),
                 dict(trig, name='live-trig-handoverfixed-b111', instance='handoverfixed', budgets=(1, 1, 1)), negctl]
-    return [dict(name='live-single3-b321', instance='single3', budgets=(3, 2, 1), invariants=['TypeOK'], spec='FixedSpec', props=LIVE, constraint=False, timeout=3000),
-            dict(name='live-handoverfixed-b211', instance='handoverfixed', budgets=(2, 1, 1), invariants=['TypeOK'], spec='FixedSpec', props=LIVE, constraint=False, timeout=3000),
-            dict(trig, name='live-trig-single3-b321', instance='single3', budgets=(3, 2, 1), timeout=3000),
-            dict(trig, name='live-trig-handoverfixed-b211', instance='handoverfixed', budgets=(2, 1, 1), timeout=3000), negctl]
+    return [dict(name='live-single3-b221', instance='single3', budgets=(2, 2, 1), invariants=['TypeOK'], spec='FixedSpec', props=LIVE, constraint=False, timeout=3000),
+            dict(name='live-handoverfixed-b210', instance='handoverfixed', budgets=(2, 1, 0), invariants=['TypeOK'], spec='FixedSpec', props=LIVE, constraint=False, timeout=3000),
+            dict(trig, name='live-trig-single3-b221', instance='single3', budgets=(2, 2, 1), timeout=3000),
+            dict(trig, name='live-trig-handoverfixed-b210', instance='handoverfixed', budgets=(2, 1, 0), timeout=3000), negctl]
 
 
 MCINV = {
